@@ -11,7 +11,8 @@ the SAME workflow instance (one ResourceManager); commands (environment actions 
 One command per quiescence point.  Objects are numbered in creation order, as in the spec.
 
 `same_run=True` builds the other shape named in the design: ONE run whose start event is accepted by all
-steps at once (two steps accepting the same event), begun by a single ["begin_all"] command.
+steps at once (two steps accepting the same event), begun by a single ["begin_all"] command; the engine starts
+the steps in name order, so `same_run="rev"` names them the other way round (the invocations are started last-first).
 """
 from __future__ import annotations
 
@@ -48,6 +49,11 @@ class _Hook:
         self.cur.body(pid, values)
 
 
+def step_name_of(procs, p, same_run):
+    k = list(procs).index(p) + 1
+    return "s%d" % (len(procs) + 1 - k if same_run == "rev" else k)
+
+
 def _compile(prog, procs, same_run):
     key = repr((sorted(prog["deps"].items()), sorted(prog["cache"].items()), sorted(prog["asyncf"].items()),
                 sorted(prog["params"].items()), tuple(procs), same_run))
@@ -74,7 +80,7 @@ def _compile(prog, procs, same_run):
             pars = "".join(", x%d: Annotated[Obj, Resource(f%s, cache=%s)]" % (j, n, prog["cache"][n])
                            for j, n in enumerate(prog["params"][p]))
             vals = "[" + ", ".join("x%d" % j for j in range(len(prog["params"][p]))) + "]"
-            src += ["    @step", "    async def s%d(self, ev: Go%s) -> StopEvent:" % (k, pars),
+            src += ["    @step", "    async def %s(self, ev: Go%s) -> StopEvent:" % (step_name_of(procs, p, same_run), pars),
                     "        HOOK.body(%r, %s)" % (p, vals), "        await HOOK.cur.hold(%r)" % p,
                     "        return StopEvent(result=%r)" % p, ""]
     else:
@@ -120,6 +126,7 @@ class System:
         self.holds = {}
         self.anomalies = []
         self.overlap = {p: False for p in self.procs}
+        self.suspended_during_cmd = False
 
     # ------------------------------------------------------------------ called from the generated code
     def _new_obj(self, name, deps):
@@ -130,7 +137,7 @@ class System:
             # by the command being applied.
             try:
                 step_name = t.get_coro().cr_frame.f_locals["command"].step_name
-                who = self.procs[int(step_name[1:]) - 1]
+                who = {step_name_of(self.procs, q, self.same_run): q for q in self.procs}[step_name]
             except Exception:
                 who = self.current_begin
             if who is None:
@@ -149,6 +156,7 @@ class System:
         t, k, o = self._new_obj(name, deps)
         g = self.loop.create_future()
         self.gate_of_task[t] = (k, g)
+        self.suspended_during_cmd = True
         try:
             await g
         finally:
@@ -223,6 +231,7 @@ class System:
         self.handlers[key] = self.wf.run(**kw)
 
     def apply(self, cmd):
+        self.suspended_during_cmd = False
         active = [q for q in self.procs if self.status(q) == "blocked"]
         if cmd[0] == "begin":
             p = cmd[1]
@@ -236,8 +245,6 @@ class System:
         elif cmd[0] == "begin_all":
             self.begun += self.procs
             self.current_begin = None
-            for p in self.procs:
-                self.overlap[p] = len(self.procs) > 1
             self.loop.call_soon(lambda: self._run("*", tag="x"))
         elif cmd[0] == "release":
             p = cmd[1]
@@ -251,6 +258,11 @@ class System:
         else:
             raise ValueError(cmd)
         self.loop.quiesce()
+        if cmd[0] == "begin_all" and len(self.procs) > 1 and self.suspended_during_cmd:
+            # somebody suspended inside an async factory with its resolution scope open while the steps of the same event
+            # ran: the invocations overlapped (when nobody ever suspends they run one after the other)
+            for p in self.procs:
+                self.overlap[p] = True
         self.current_begin = None
         return self.project()
 
